@@ -7,19 +7,19 @@ import numpy as np
 from mc.refmodel import graphs as G
 from mc.spaces import dag_matrix
 
-MEANS_F = [0.5, -1.25, 2.0, -0.75, 1.5]
-VARS_F = [0.5, 2.0, 1.25, 0.75, 3.0]
-MEANS_I = [1, -2, 3, 0, -1]
-VARS_I = [1, 2, 3, 1, 2]
+MEANS_F = [0.5, -1.25, 2.0, -0.75, 1.5, 0.25, -2.0, 1.0, -0.5, 3.0]
+VARS_F = [0.5, 2.0, 1.25, 0.75, 3.0, 1.5, 0.25, 2.5, 1.0, 0.5]
+MEANS_I = [1, -2, 3, 0, -1, 2, -3, 1, 0, 4]
+VARS_I = [1, 2, 3, 1, 2, 1, 3, 2, 1, 2]
 
 # distinct dyadic parameters per (variable, intervention type)
-DO = {j: (1.5 + j, 0.25 * (j + 1)) for j in range(5)}
-NOISE = {j: (-0.5 - 0.5 * j, 0.5 + 0.25 * j) for j in range(5)}
-SHIFT = {j: (0.25 + 0.125 * j, 0.125 + 0.25 * j) for j in range(5)}
+DO = {j: (1.5 + j, 0.25 * (j + 1)) for j in range(10)}
+NOISE = {j: (-0.5 - 0.5 * j, 0.5 + 0.25 * j) for j in range(10)}
+SHIFT = {j: (0.25 + 0.125 * j, 0.125 + 0.25 * j) for j in range(10)}
 # integer-valued parameters for the int style
-DO_I = {j: (2 + j, 1 + j) for j in range(5)}
-NOISE_I = {j: (-1 - j, 2 + j) for j in range(5)}
-SHIFT_I = {j: (3 + j, 1 + 2 * j) for j in range(5)}
+DO_I = {j: (2 + j, 1 + j) for j in range(10)}
+NOISE_I = {j: (-1 - j, 2 + j) for j in range(10)}
+SHIFT_I = {j: (3 + j, 1 + 2 * j) for j in range(10)}
 
 
 def model(p, ch, lab, cfg):
@@ -43,8 +43,11 @@ def assignment_dicts(p, assign, style="tuple"):
     (do, noise, shift) dicts as passed to the library, and the same as {t: (mean, var)} for the oracle."""
     lib = ({}, {}, {})
     ora = ({}, {}, {})
+    rev = style.endswith("-rev")          # same interventions, dict keys inserted in descending order
+    if rev:
+        style = style[:-4]
     tabs = (DO, NOISE, SHIFT) if style in ("tuple", "float") else (DO_I, NOISE_I, SHIFT_I)
-    for t in range(p):
+    for t in (range(p - 1, -1, -1) if rev else range(p)):
         for k in range(3):
             if assign[t] >> k & 1:
                 m, v = tabs[k][t]
